@@ -36,7 +36,8 @@ Section Bridge.
           destruct (is_empty d) as [[|]|e]; cbn [bind]; try reflexivity. apply (IH (field_insert k d pos)). }
       destruct (forall_res _ (all_keys pos neg)) as [[|]|e]; cbn [bind negb]; try reflexivity.
       unfold string_index, index_dimension_is_covered. cbn [xa_index plain bind].
-      destruct (sem_diff sem_never sem_string) as [s|e]; cbn [bind]; [|reflexivity].
-      destruct (is_empty s) as [[|]|e]; cbn [bind]; try reflexivity.
+      destruct (minus_keys sem_never (keys pos ++ keys neg)) as [free|e]; cbn [bind]; [|reflexivity].
+      destruct (sem_intersect free sem_string) as [s|e]; cbn [bind]; [|reflexivity].
+      destruct (is_empty s) as [[|]|e]; cbn [bind negb]; try reflexivity.
   Qed.
 End Bridge.
